@@ -65,7 +65,7 @@ package memguard
 //@ extern memguard.(*LockedBuffer).Wipe
 //@   names b
 //@   requires b != nil
-//@   requires [C12:wipe-needs-writable-pages] lbalive(b) ==> prot(lbpage(b.Buffer)) == 2
+//@   requires lbalive(b) ==> prot(lbpage(b.Buffer)) == 2
 //@   modifies bytesof(lbpage(b.Buffer), 0, lblen(b.Buffer))[*]
 //@   ensures allzero(bytesof(lbpage(b.Buffer), 0, lblen(b.Buffer)))
 
@@ -88,12 +88,15 @@ package memguard
 //@ monitor (*secret).rw
 //@   facet C11
 //@   cond c
+//@   counts accessCounter as myreads
 //@   guards closing, accessCounter
 //@   monotone closing
 //@   havocs lbalive(this.buffer), mapped(lbpage(this.buffer.Buffer)), locked(lbpage(this.buffer.Buffer)), prot(lbpage(this.buffer.Buffer))
 //@   invariant [open-secret-is-mapped-and-locked] lbalive(this.buffer) ==> mapped(lbpage(this.buffer.Buffer)) && locked(lbpage(this.buffer.Buffer)) && this.accessCounter >= 0
 //@   invariant [readable-while-readers] lbalive(this.buffer) && this.accessCounter > 0 ==> prot(lbpage(this.buffer.Buffer)) == 1
+//@   invariant [alive-while-readers] this.accessCounter > 0 ==> lbalive(this.buffer)
 //@   invariant [destroyed-secret-has-no-memory] !lbalive(this.buffer) ==> this.closing && !mapped(lbpage(this.buffer.Buffer)) && !locked(lbpage(this.buffer.Buffer))
+//@   invariant [this-thread-s-readers-are-counted] myreads(this) >= 0 && this.accessCounter >= myreads(this)
 //@   invariant [wired] this.rw != nil && this.c != nil && this.mc != nil && this.buffer != nil
 //@ immutable (secret).rw, (secret).c, (secret).mc, (secret).buffer
 
@@ -144,6 +147,7 @@ package memguard
 //@   ensures [C11:lock-released] *s.rw == 0
 //@   ensures [C11:closed-secret-refuses-access] old(s.closing || !lbalive(s.buffer)) ==> err != nil
 //@   ensures [C12:failed-access-changes-nothing] err != nil ==> s.accessCounter == old(s.accessCounter) && prot(lbpage(s.buffer.Buffer)) == old(prot(lbpage(s.buffer.Buffer))) && lbalive(s.buffer) == old(lbalive(s.buffer)) && s.closing == old(s.closing)
+//@   ensures [C11:takes-one-read-iff-it-succeeds] myreads(s) == old(myreads(s)) + (if err == nil then 1 else 0)
 //@   ensures [C11:reader-sees-read-only-memory] err == nil ==> s.accessCounter == old(s.accessCounter) + 1 && prot(lbpage(s.buffer.Buffer)) == 1 && lbalive(s.buffer) && mapped(lbpage(s.buffer.Buffer)) && locked(lbpage(s.buffer.Buffer))
 
 //@ func (*secret).release
@@ -153,6 +157,8 @@ package memguard
 //@   opt no-frame
 //@   opt old-at-acquire
 //@   requires wfM(s) && *s.rw == 0
+//@   requires [C11,C12:a-reader-releases-only-what-it-acquired] myreads(s) >= 1
+//@   ensures [C11:gives-back-one-read] myreads(s) == old(myreads(s)) - 1
 //@   ensures [C11:lock-released] *s.rw == 0
 //@   ensures [C11:reader-count-goes-down] s.accessCounter == old(s.accessCounter) - 1
 //@   ensures [C11:last-reader-restores-no-access] err == nil && s.accessCounter == 0 && old(lbalive(s.buffer)) ==> prot(lbpage(s.buffer.Buffer)) == 0
@@ -164,7 +170,7 @@ package memguard
 //@   opt no-frame
 //@   opt old-at-acquire
 //@   requires wfM(s) && *s.rw == 0
-//@   loop 1 invariant [C11:closing-under-lock] *s.rw == 2 && s.closing && (lbalive(s.buffer) ==> mapped(lbpage(s.buffer.Buffer)) && locked(lbpage(s.buffer.Buffer)) && s.accessCounter >= 0) && (lbalive(s.buffer) && s.accessCounter > 0 ==> prot(lbpage(s.buffer.Buffer)) == 1) && (!lbalive(s.buffer) ==> !mapped(lbpage(s.buffer.Buffer)) && !locked(lbpage(s.buffer.Buffer))) && cnt(securememory.InUseCounter) == old(cnt(securememory.InUseCounter))
+//@   loop 1 invariant [C11:closing-under-lock] *s.rw == 2 && s.closing && (lbalive(s.buffer) ==> mapped(lbpage(s.buffer.Buffer)) && locked(lbpage(s.buffer.Buffer)) && s.accessCounter >= 0) && (lbalive(s.buffer) && s.accessCounter > 0 ==> prot(lbpage(s.buffer.Buffer)) == 1) && (!lbalive(s.buffer) ==> !mapped(lbpage(s.buffer.Buffer)) && !locked(lbpage(s.buffer.Buffer))) && cnt(securememory.InUseCounter) == old(cnt(securememory.InUseCounter)) && myreads(s) >= 0 && s.accessCounter >= myreads(s) && (s.accessCounter > 0 ==> lbalive(s.buffer))
 //@   ensures [C11:lock-released] *s.rw == 0
 //@   ensures [C11,C12:close-wipes-unlocks-and-unmaps] result == nil && !lbalive(s.buffer) && !mapped(lbpage(s.buffer.Buffer)) && !locked(lbpage(s.buffer.Buffer))
 //@   ensures [C11:later-access-refused] s.closing
@@ -184,6 +190,7 @@ package memguard
 //@   opt no-frame
 //@   param action mgAction
 //@   requires wfM(s) && *s.rw == 0 && action != nil
+//@   ensures [C11,C12:a-reader-releases-exactly-what-it-acquired] myreads(s) == old(myreads(s))
 //@   ensures [C11,C12:a-reader-releases-only-what-it-acquired] retis(release, 1, 0, ret(release, 1, 0)) ==> retis(access, 1, 0, nil)
 //@   ensures [C11:callback-runs-only-between-access-and-release] retis(action, 1, 0, ret(action, 1, 0)) ==> retis(access, 1, 0, nil) && retis(release, 1, 0, ret(release, 1, 0))
 //@   ensures [C11:lock-released] *s.rw == 0
@@ -195,6 +202,7 @@ package memguard
 //@   opt no-frame
 //@   param action mgAction
 //@   requires wfM(s) && *s.rw == 0 && action != nil
+//@   ensures [C11,C12:a-reader-releases-exactly-what-it-acquired] myreads(s) == old(myreads(s))
 //@   ensures [C11,C12:a-reader-releases-only-what-it-acquired] retis(release, 1, 0, ret(release, 1, 0)) ==> retis(access, 1, 0, nil)
 //@   ensures [C11:callback-runs-only-between-access-and-release] retis(action, 1, 0, ret(action, 1, 0)) ==> retis(access, 1, 0, nil) && retis(release, 1, 0, ret(release, 1, 0))
 //@   ensures [C11:lock-released] *s.rw == 0
